@@ -380,7 +380,7 @@ func (p *sparser) mul() *SExpr {
 }
 
 func (p *sparser) unary() *SExpr {
-	for _, o := range []string{"!", "-", "^", "*"} {
+	for _, o := range []string{"!", "-", "^", "*", "&"} {
 		if p.accept(o) {
 			return &SExpr{Kind: "unary", Op: o, Args: []*SExpr{p.unary()}}
 		}
@@ -581,7 +581,7 @@ func (ss *SpecSet) LoadSpecFile(path string, pkgPath string) error {
 var clauseKW = map[string]bool{"arith": true, "float": true, "requires": true, "ensures": true, "modifies": true,
 	"loop": true, "invariant": true, "decreases": true, "inline": true, "pure": true, "trusted": true, "opt": true,
 	"let": true, "assume": true, "prove": true, "vars": true, "ghost": true, "calls": true, "usespec": true,
-	"guarded": true, "initonly": true, "confined": true, "channel": true, "initfuncs": true, "conffuncs": true, "entry": true, "heldfuncs": true}
+	"guarded": true, "initonly": true, "confined": true, "channel": true, "initfuncs": true, "conffuncs": true, "entry": true, "heldfuncs": true, "balanceonly": true}
 var topKW = map[string]bool{"func": true, "spec": true, "pred": true, "lemma": true, "package": true, "uninterp": true, "lockclass": true}
 
 func firstWord(s string) (string, string) {
@@ -650,7 +650,7 @@ func (ss *SpecSet) parseLines(lines []string, pkgPath, file string) error {
 	for _, it := range items {
 		if it.kw != "lockclass" && curLC != "" {
 			switch it.kw {
-			case "guarded", "initonly", "confined", "channel", "initfuncs", "conffuncs", "entry", "heldfuncs":
+			case "guarded", "initonly", "confined", "channel", "initfuncs", "conffuncs", "entry", "heldfuncs", "balanceonly":
 				ss.lcLines[curLC] = append(ss.lcLines[curLC], it.kw+" "+it.rest)
 				continue
 			}
